@@ -6,6 +6,7 @@ import (
 	"strings"
 
 	"github.com/verily-src/fhirpath-go/fhirpath"
+	"github.com/verily-src/fhirpath-go/fhirpath/compopts"
 	"github.com/verily-src/fhirpath-go/fhirpath/evalopts"
 	"github.com/verily-src/fhirpath-go/fhirpath/system"
 	"github.com/verily-src/fhirpath-go/fhirpath/verifharness/core"
@@ -23,13 +24,13 @@ func init() {
 			"collection-valued / criterion arguments (where, select, all, exists, intersect, exclude, iif) are not 'single value required'",
 			"functions added to the table later are probed with integer arguments"},
 		Run:    runC07,
-		Checks: map[string]func(*core.Env, []json.RawMessage){"prog": replayC07, "varprog": replayC07Var},
+		Checks: map[string]func(*core.Env, []json.RawMessage){"prog": replayC07, "varprog": replayC07Var, "permissive": replayC07Perm},
 		Threshold: func(m *core.Merged) []string {
 			var r []string
 			if m.Cover["func-empty-input"] < 60 {
 				r = append(r, fmt.Sprintf("only %d functions probed with empty input", m.Cover["func-empty-input"]))
 			}
-			for _, k := range []string{"op-empty", "concat", "arg-empty", "arg-empty-other-receiver", "var-then-empty"} {
+			for _, k := range []string{"op-empty", "concat", "arg-empty", "arg-empty-other-receiver", "var-then-empty", "permissive-absent-path"} {
 				if m.Cover[k] == 0 {
 					r = append(r, "never observed: "+k)
 				}
@@ -39,7 +40,7 @@ func init() {
 	})
 }
 
-var emptyForms = []string{"{}", "Patient.photo", "%emptyc"}
+var emptyForms = []string{"{}", "Patient.photo", "%emptyc", "Patient.maritalStatus"} // (an absent repeated and an absent singular element)
 
 // c07Prog: want = "empty" | "empty-or-error" | "str:<text>"
 func c07Prog(env *core.Env, key, src, want string) {
@@ -74,6 +75,35 @@ func c07Prog(env *core.Env, key, src, want string) {
 	}
 }
 
+// c07Permissive: an absent element reached by a path compiled with the (deprecated) Permissive option is still the
+// empty collection, for operators and functions alike.
+func c07Permissive(env *core.Env, key, src string) {
+	defer env.In("permissive", key, src)()
+	in, eo := stdInputs()
+	co := append(buildCompileOpts("experimental"), compopts.Permissive())
+	r := fx.EvalK(env, "experimental+permissive", src, in, co, eo)
+	env.Case()
+	env.Cover("permissive-absent-path")
+	if r.IsPanic() {
+		env.Violatef(fx.PanicSig("C07", r), "`%s` compiled with Permissive => %s", src, r.Short())
+		return
+	}
+	if !r.Empty() {
+		kind := "value-instead-of-empty"
+		if r.IsError() {
+			kind = "error-instead-of-empty"
+		}
+		env.Violatef("C07/"+key+"/permissive/"+kind, "`%s` compiled with compopts.Permissive(): empty must propagate, observed %s", src, trunc(r.Short(), 200))
+	}
+}
+
+func replayC07Perm(env *core.Env, a []json.RawMessage) {
+	var key, src string
+	json.Unmarshal(a[0], &key)
+	json.Unmarshal(a[1], &src)
+	c07Permissive(env, key, src)
+}
+
 func replayC07(env *core.Env, a []json.RawMessage) {
 	var key, src, want string
 	json.Unmarshal(a[0], &key)
@@ -88,6 +118,10 @@ func runC07(env *core.Env) {
 	others := map[string][]string{
 		"*": {"2", "1.5"}, "/": {"2", "1.5"}, "div": {"2"}, "mod": {"2"}, "+": {"2", "'a'", "@2020-01-01", "1 'mg'"}, "-": {"2", "@2020-01-01", "1 day"},
 		"<": {"2", "'a'", "@2020"}, "<=": {"2"}, ">": {"2"}, ">=": {"2"}, "=": {"2", "'a'", "true", "%name", "%multi"}, "!=": {"2", "'a'", "%names"},
+	}
+	for _, op := range []string{"*", "/", "div", "mod", "+", "-", "<", "<=", ">", ">=", "=", "!="} {
+		// an empty operand wins over whatever the other operand is: also a multi-item collection or a complex element
+		others[op] = append(others[op], "%multi", "%name", "Patient.name.given", "Patient.contact[0]")
 	}
 	for _, op := range []string{"*", "/", "div", "mod", "+", "-", "<", "<=", ">", ">=", "=", "!="} {
 		for _, e := range emptyForms {
@@ -135,6 +169,15 @@ func runC07(env *core.Env) {
 		}
 		if mine() {
 			c07Prog(env, "concat/both", e+" & "+e, "str:")
+		}
+	}
+	// absent elements under the Permissive option
+	for _, e := range []string{"Patient.photo", "Patient.maritalStatus", "Patient.maritalStatus.text", "Patient.generalPractitioner.display", "Patient.name[0].period.start"} {
+		for _, p := range []struct{ key, tmpl string }{{"path", "%s"}, {"op+", "%s + 1"}, {"op=", "%s = 1"}, {"op<", "2 < %s"}, {"polarity-", "-(%s)"}, {"index", "(%s)[0]"}, {"is", "(%s) is Integer"},
+			{"fn:not", "(%s).not()"}, {"fn:toString", "(%s).toString()"}, {"fn:first", "(%s).first()"}, {"fn:length", "(%s).length()"}, {"fn:abs", "(%s).abs()"}, {"fn:where", "(%s).where(true)"}, {"fn:upper", "(%s).upper()"}} {
+			if mine() {
+				c07Permissive(env, p.key, fmt.Sprintf(p.tmpl, e))
+			}
 		}
 	}
 	// the empty collection arriving through a variable that held a value in an earlier evaluation
